@@ -18,6 +18,19 @@ package redisemu
 //@ ghost gParsedOK bool
 // C04: the option flags the hash table worker was last entered with
 //@ ghost gHashOptions bitflags
+// C05: ghost sets used to state the set algebra: the accumulated operand set (union of the
+// operands processed so far), its value before the current operand, the result's members
+// when the current operand was reached, and the empty set
+//@ ghost gAcc strmapof:bool
+//@ ghost gAccPrev strmapof:bool
+//@ ghost gSnapDom strmapof:bool
+//@ ghost gEmptySet strmapof:bool
+//@ ghost gFullSet strmapof:bool
+// SINTER collects the members to drop in a list first: the set of collected names, the list
+// position of each (witness), and the names already dropped
+//@ ghost gRem strmapof:bool
+//@ ghost gRemIdx strmapof:int
+//@ ghost gDone strmapof:bool
 // C10: the watched-key version (storeKey.id / absence) changed
 //@ ghost bumped bool
 //@ ghost removedKey bool
@@ -266,5 +279,7 @@ package redisemu
 //@ modifies dataStore.dataObjectNumber storeKey ds.data->buckets ds.data->count ds.data->dirty ds.data->removals ds.data->vdom ds.data->vval redisDictItem alloc ghost.mutated ghost.bumped
 //@ ensures result != nil && result.flags == 0 && result.payload == nil && result.id == ds.dataObjectNumber
 //@ ensures otherdicts: forall r *redisDict :: r != ds.data ==> r.count == old(r.count)
+//@ ensures [C04,C05] installed: ds.data.vdom[keyName] && istype(ds.data.vval[keyName], *storeKey) && unbox(ds.data.vval[keyName], *storeKey) == result
+//@ ensures [C04,C05] others: forall q string :: q != keyName ==> ds.data.vdom[q] == old(ds.data.vdom[q]) && ds.data.vval[q] == old(ds.data.vval[q])
 //@ ensures mut: mutated && bumped
 //@ ensures dirty: ds.data.dirty
